@@ -1,5 +1,6 @@
 import copy
 import importlib
+import json
 import logging
 import os
 import os.path
@@ -96,6 +97,19 @@ def redirect_exception(old_exc, new_exc):
         return inner_wrapper
 
     return wrapper
+
+
+def dump_json_atomic(obj, path, **kwargs):
+    """Write `obj` as JSON to `path` without ever leaving a partial file.
+
+    The document is written to a temporary file in the same directory and then
+    moved into place, so a reader (or the next gwf invocation after a crash)
+    sees either the old or the new contents.
+    """
+    tmp_path = "{}.tmp".format(path)
+    with open(tmp_path, "w") as tmp_file:
+        json.dump(obj, tmp_file, **kwargs)
+    os.replace(tmp_path, path)
 
 
 def ensure_trailing_newline(s):
